@@ -8,7 +8,7 @@ namespace sim { namespace kern {
 
 enum CallId { SC_SEM_OPEN, SC_SEM_CLOSE, SC_SEM_UNLINK, SC_SEM_WAIT, SC_SEM_POST, SC_SHM_OPEN, SC_SHM_UNLINK, SC_FTRUNCATE, SC_FSTAT,
               SC_MMAP, SC_MUNMAP, SC_CLOSE, SC_NANOSLEEP, SC_SOCKET, SC_BIND, SC_LISTEN, SC_ACCEPT, SC_CONNECT, SC_SEND, SC_SENDTO, SC_RECV,
-              SC_RECVFROM, SC_POLL, SC_SHUTDOWN, SC_GETSOCKOPT, SC_SETSOCKOPT, SC_GETSOCKNAME, SC_GETPEERNAME, SC_FCNTL, SC_OPEN, SC_COUNT };
+              SC_RECVFROM, SC_POLL, SC_SHUTDOWN, SC_GETSOCKOPT, SC_SETSOCKOPT, SC_GETSOCKNAME, SC_GETPEERNAME, SC_FCNTL, SC_OPEN, SC_FOPEN, SC_OPENDIR, SC_DLOPEN, SC_PTHREAD_CREATE, SC_KEY_CREATE, SC_COUNT };
 extern const char *call_names[SC_COUNT];
 
 void run_begin();
@@ -56,6 +56,10 @@ int syscalls_in_bracket();                          // system calls issued by th
 // ---- signals as their observable effect
 int sigpipe_deliveries();                           // would-be SIGPIPE deliveries (write to a gone peer without MSG_NOSIGNAL / ignore)
 bool sigpipe_ignored(int proc);
+
+// ---- real pass-through resources (fopen/opendir/dlopen are executed for real, but counted and failable)
+int passthrough_open();                             // FILE* + DIR* + dlopen handles currently open through the library
+std::string passthrough_desc();
 
 // ---- messages
 uint64_t msg_errors(); uint64_t msg_warnings();
